@@ -23,6 +23,7 @@ type EvalCtx struct {
 	depth           int
 	polarityUnknown bool
 	loopSnap        *State
+	headSnap        *State
 	closureArgs     map[string]*ssa.MakeClosure // function-valued parameters bound to closures created by the caller
 	cells           map[string]Loc              // captured variables of the closure whose contract is evaluated: name -> cell
 }
@@ -290,6 +291,18 @@ func (c *EvalCtx) call(x *ast.CallExpr) Term {
 		c.st.mergeLines(c.loopSnap.lines[mark:])
 		c.side = append(c.side, n.side[len(c.side):]...)
 		return r
+	case "athead":
+		// athead(e): e evaluated in the heap as it was at the head of the current loop iteration
+		if c.headSnap == nil {
+			c.fail("athead() outside a loop body")
+		}
+		n := *c
+		n.st = c.headSnap
+		mark := len(c.headSnap.lines)
+		r := n.eval(x.Args[0])
+		c.st.mergeLines(c.headSnap.lines[mark:])
+		c.side = append(c.side, n.side[len(c.side):]...)
+		return r
 	case "fresh":
 		v := c.eval(x.Args[0])
 		base := c.u.entry
@@ -357,7 +370,13 @@ func (c *EvalCtx) call(x *ast.CallExpr) Term {
 	case "trig":
 		// trig(pattern, body): body annotated with an E-matching trigger (for declared axioms)
 		pat := c.eval(x.Args[0])
-		body := c.eval(x.Args[1])
+		if len(x.Args) > 2 {
+			// trig(p1, p2, ..., body): one multi-pattern
+			for _, a := range x.Args[1 : len(x.Args)-1] {
+				pat.S += " " + c.eval(a).S
+			}
+		}
+		body := c.eval(x.Args[len(x.Args)-1])
 		if !c.mentionsBound(pat) {
 			// not under a quantifier here (e.g. logical variables while verifying the function itself)
 			return body
@@ -406,6 +425,18 @@ func (c *EvalCtx) call(x *ast.CallExpr) Term {
 		// constmap(v): the ghost map that is v everywhere (string keys)
 		v := c.eval(x.Args[0])
 		as := arraySort(SStr, v.Sort)
+		return mk(fmt.Sprintf("((as const %s) %s)", as, v.S), as)
+	case "pos":
+		// pos(s, i): the position of s[i] in the backing array, a heap-independent term to use in triggers
+		v, i := c.eval(x.Args[0]), c.eval(x.Args[1])
+		if v.Sort != SSlice {
+			c.fail("pos() of a non-slice")
+		}
+		return mkT(app("sidx", SInt, v, i).S, SInt, types.Typ[types.Int])
+	case "constarr":
+		// constarr(v): the ghost array (integer index) that is v everywhere
+		v := c.eval(x.Args[0])
+		as := arraySort(SInt, v.Sort)
 		return mk(fmt.Sprintf("((as const %s) %s)", as, v.S), as)
 	case "allocNow":
 		// the allocation bound of the current state: every object existing now has own() <= allocNow()
@@ -616,10 +647,11 @@ func (c *EvalCtx) quant(kind string, x *ast.CallExpr) Term {
 		if g.S == "true" && strings.HasPrefix(b.S, "(forall (") {
 			return mk("(forall (("+bn+" "+sort+") "+strings.TrimPrefix(b.S, "(forall ("), SBool)
 		}
+		qid := strings.ReplaceAll(bn, "?", "_")
 		if b.Pat != "" {
-			return mk(fmt.Sprintf("(forall ((%s %s)) (! %s :pattern (%s)))", bn, sort, implies(g, b).S, b.Pat), SBool)
+			return mk(fmt.Sprintf("(forall ((%s %s)) (! %s :qid %s :pattern (%s)))", bn, sort, implies(g, b).S, qid, b.Pat), SBool)
 		}
-		return mk(fmt.Sprintf("(forall ((%s %s)) %s)", bn, sort, implies(g, b).S), SBool)
+		return mk(fmt.Sprintf("(forall ((%s %s)) (! %s :qid %s))", bn, sort, implies(g, b).S, qid), SBool)
 	}
 	return mk(fmt.Sprintf("(exists ((%s %s)) %s)", bn, sort, and(g, b).S), SBool)
 }
